@@ -51,11 +51,9 @@ TRUSTED_BASE = [
     "(the harness reads features only right after a refresh); len(child) is "
     "read once right after the child is created, so that _length is always "
     "cached",
-    "C04_nonscalar_child_is_view is conditional on length consistency of "
-    "the parent's filter and on the parent being mappable to the root; these "
-    "hold on every observed state (checked by the oracle: filter sizes, "
-    "map_indices_child2root vs composed masks) but are not proved as a "
-    "history invariant",
+    "the non-scalar features are represented by one image-id column read "
+    "through the modelled index maps; mask, contour and trace use the same "
+    "code in events.py and are compared by the oracle only",
     "model of the root dataset: a plain Filter has no _root_ids / "
     "_parent_hash; the model gives them the values of an all-selected child "
     "(never read by the modelled code paths)",
@@ -657,7 +655,7 @@ def impl_map(cases):
 
 
 def run(run):
-    ncases = 3000 if run.thorough else 220
+    ncases = 2000 if run.thorough else 220
     cases = load_corpus()
     run.count("corpus", len(cases))
     while len(cases) < ncases:
